@@ -97,12 +97,15 @@ Judge(e) ==
   IN
   IF neg # <<>> THEN Fail(e, "visit", [why |-> "negative AbsTicks", at |-> neg[1]])
   ELSE IF ~st.ok THEN
-    Fail(e, "visit", [why |-> "an event that must be visited is missing (or visits are out of order)", at |-> st.p, nvisits |-> Len(got),
+    Fail(e, "visit", [why |-> IF st.p > 1 /\ st.p <= Len(got) /\ got[st.p] = got[st.p - 1]
+                                THEN "the previous visit is repeated: an event is handed out more than once"
+                                ELSE "an event that must be visited is missing (or visits are out of order)",
+                      repeat |-> (st.p > 1 /\ st.p <= Len(got) /\ got[st.p] = got[st.p - 1]), at |-> st.p, nvisits |-> Len(got),
                       missing |-> [tr |-> st.miss[1].tr, m |-> st.miss[1].m],
                       got |-> IF st.p <= Len(got) THEN <<[tr |-> e.visits[st.p].tr, d |-> e.visits[st.p].d, abs |-> e.visits[st.p].abs, m |-> e.visits[st.p].m]>> ELSE <<>>])
   ELSE IF st.p # Len(got) + 1 THEN
     Fail(e, "visit", [why |-> "a visit that no remaining event of the selected tracks / filter explains (extra, repeated, wrong TrackNo / Delta / AbsTicks)",
-                      at |-> st.p, nvisits |-> Len(got), missing |-> <<>>,
+                      repeat |-> (st.p > 1 /\ got[st.p] = got[st.p - 1]), at |-> st.p, nvisits |-> Len(got), missing |-> <<>>,
                       got |-> <<[tr |-> e.visits[st.p].tr, d |-> e.visits[st.p].d, abs |-> e.visits[st.p].abs, m |-> e.visits[st.p].m]>>])
   ELSE
   \* ---- P3
